@@ -1,17 +1,21 @@
 ---- MODULE MC_fail ----
 EXTENDS MC
 \* fan-in with failing rules at various positions:  p <- a,  q <- b,  z <- p,q,  w <- z;  menus move the failure around
-mcOrd == <<"a", "b", "p", "q", "w", "z">>
+mcOrd == <<"a", "b", "p", "q", "v", "w", "y", "z">>
 P(k) == Rl(<<"p">>, <<"a">>, k, "c1")
 Q(k) == Rl(<<"q">>, <<"b">>, k, "c2")
 Z(k) == Rl(<<"z">>, <<"p", "q">>, k, "c3")
 W(k) == Rl(<<"w">>, <<"z">>, k, "c4")
-mcMenu == << << P("fn"), Q("fn"), W("fn"), Z("fn") >>,
-             << P("fail"), Q("fn"), W("fn"), Z("fn") >>,
-             << P("fn"), Q("fn"), W("fn"), Z("fail") >>,
-             << P("fail"), Q("fail"), W("fn"), Z("fn") >>,
-             << P("fn"), MkRule(<<"q">>, <<"b">>, "fn", "c2", 1, <<>>, FALSE, FALSE), W("fn"), Z("fn") >>,
-             << MkRule(<<"p">>, <<"a">>, "fn", "c1", 0, <<>>, FALSE, TRUE), Q("fn"), W("fn"), Z("fn") >>,
-             << P("fn"), Killed(MkRule(<<"q">>, <<"b">>, "fn", "c2", 0, <<>>, FALSE, TRUE)), W("fn"), Z("fn") >> >>
-mcInit == << <<"a", "S0">>, <<"b", "S0">> >>
+\* v depends on a rule (p) and, later in sorted order, directly on a leaf (y): a cancel from p can arrive before y has reported
+V == Rl(<<"v">>, <<"p", "y">>, "fn", "c5")
+mcMenu == << << P("fn"), Q("fn"), V, W("fn"), Z("fn") >>,
+             << P("fail"), Q("fn"), V, W("fn"), Z("fn") >>,
+             << P("fn"), Q("fn"), V, W("fn"), Z("fail") >>,
+             << P("fail"), Q("fail"), V, W("fn"), Z("fn") >>,
+             << P("fn"), MkRule(<<"q">>, <<"b">>, "fn", "c2", 1, <<>>, FALSE, FALSE), V, W("fn"), Z("fn") >>,
+             << MkRule(<<"p">>, <<"a">>, "fn", "c1", 0, <<>>, FALSE, TRUE), Q("fn"), V, W("fn"), Z("fn") >>,
+             << P("fn"), Killed(MkRule(<<"q">>, <<"b">>, "fn", "c2", 0, <<>>, FALSE, TRUE)), V, W("fn"), Z("fn") >> >>
+mcInit == << <<"a", "S0">>, <<"b", "S0">>, <<"y", "S0">> >>
+mcScriptCancelRace == << <<"rules", 2>>, <<"del", "y">>, <<"build", "">> >>
+mcScriptTwoMissing == << <<"del", "y">>, <<"del", "a">>, <<"build", "">> >>
 ====
